@@ -127,7 +127,13 @@ Definition prop_holds (c : case) : bool :=
                  (* integers exactly; floats up to the float64 rounding of the product *)
                  match v with VFloat _ => Z.abs (o - ns) <=? Z.max 1 (Z.abs ns / 2 ^ 52) | _ => o =? ns end
                | _ => false end
-          else match ob with CEr _ => true | _ => false end
+          else match ob with
+               | CEr _ => true
+               (* a float whose product with 1e9 rounds onto the bound itself: the same float64
+                  rounding of the product that is granted inside the range *)
+               | COk (CD o) => match v with VFloat _ => Z.abs (o - ns) <=? Z.max 1 (Z.abs ns / 2 ^ 52) | _ => false end
+               | _ => false
+               end
         | MNaN | MInf _ => match ob with CEr _ => true | _ => false end
         | MNone => true
         end
@@ -143,7 +149,18 @@ Definition prop_holds (c : case) : bool :=
                     | VStr _ => true
                     | _ => match ob with CEr _ => true | _ => false end
                     end
-      | KFloat32 => true
+      | KFloat32 =>
+        (* a finite number beyond the largest float32, (2^24-1)*2^104, is out of range; it must
+           not come back as an infinity *)
+        let maxf32 := (2 ^ 24 - 1) * 2 ^ 104 in
+        let beyond := match v with
+                      | VFloat f => match decode f with
+                                    | FFin _ m e => if 0 <=? e then maxf32 <? m * 2 ^ e else false
+                                    | _ => false end
+                      | VInt i | VUint i => maxf32 <? Z.abs i
+                      | _ => false
+                      end in
+        if beyond then match ob with CEr _ => true | _ => false end else true
       end
     | CConvDyn _ _ _ _ _ _ => true
     end
